@@ -20,7 +20,8 @@ Four kinds of auction share one shape:
 
 The bank is a small association list (first match wins, default 0).  Time is an integer (block time in
 seconds); an auction is *due* when the block time has passed its window(s).  The block hook is split into
-`tick` (time advances) and one `settle` per live auction (close when there is a bid, restart otherwise); the
+`tick` (time advances) and one `settle` per live auction (close when there is a bid, restart otherwise; under
+emergency shutdown of the app the first-generation hook closes at once and refunds the standing bidder); the
 real hook is `tick` followed by `settle` of every live auction (`blockOps`), so every statement proved for
 arbitrary op lists holds for the real schedule.  Core Lean only.
 -/
@@ -92,6 +93,10 @@ structure State where
   live : List Auction
   closed : List Auction  -- ghost: final records of the auctions closed so far (latest first)
   now : Int
+  esm : Bool := false    -- emergency shutdown status of the app (x/esm), read by the x/auction block hook
+  /-- what `MsgPlaceDebtBidRequest.ValidateBasic` demands of the bid amount: `none` = nothing (the tree as found:
+  zero and negative bids reach the keeper), `some 1` = positive.  Read off the real `ValidateBasic` by the harness. -/
+  debtFloor : Option Int := none
 deriving Repr
 
 def findAuc : List Auction → Nat → Option Auction
@@ -124,6 +129,8 @@ inductive Op where
   | tick (now : Int)
   /-- the block hook looks at one live auction -/
   | settle (id : Nat)
+  /-- the app's emergency shutdown status changes (environment) -/
+  | esm (on : Bool)
 deriving Repr
 
 /-- take `payIn` from the new bidder, refund the previous bidder in full, store the new record -/
@@ -180,6 +187,11 @@ def bidStep (s : State) (who : Acct) (app mapping id : Nat) (denom : Denom) (amt
       else accept s a who { a with lot := amt, bidder := some who, nbids := a.nbids + 1 } a.pay
     | .debtV1 => none                                        -- no surplus auction under this id
 
+def belowFloor (s : State) (amt : Int) : Bool :=
+  match s.debtFloor with
+  | some fl => decide (amt < fl)
+  | none => false
+
 def dbidStep (s : State) (who : Acct) (app mapping id : Nat) (denom : Denom) (amt : Int)
     (expDenom : Denom) (expAmt : Int) : Option State :=
   match findAuc s.live id with
@@ -188,7 +200,8 @@ def dbidStep (s : State) (who : Acct) (app mapping id : Nat) (denom : Denom) (am
     if a.app ≠ app ∨ a.mapping ≠ mapping then none else
     match a.kind with
     | .debtV1 =>
-      if expDenom ≠ a.payDenom then none
+      if belowFloor s amt then none                          -- ValidateBasic
+      else if expDenom ≠ a.payDenom then none
       else if expAmt ≠ a.pay then none
       else if denom ≠ a.lotDenom then none
       else if tooHigh a amt a.lot0 then none
@@ -223,11 +236,36 @@ def closeBank (s : State) (a : Auction) (w : Acct) : Option Bank :=
   | .debtV1 | .debtV2 =>
     send (mint s.bank w a.lotDenom a.lot) s.cust s.coll a.payDenom a.pay
 
+/-- emergency close of a first-generation auction (`closeSurplusAuction` / `closeDebtAuction` with
+`statusEsm = true`): the standing bidder gets its stake back, a surplus lot returns to the collector, nobody wins -/
+def esmBank (s : State) (a : Auction) : Option Bank :=
+  match a.kind with
+  | .surplusV1 =>
+    match a.bidder with
+    | some w =>
+      match send s.bank s.cust w a.payDenom a.pay with
+      | none => none
+      | some b1 => send b1 s.cust s.coll a.lotDenom a.lot
+    | none => send s.bank s.cust s.coll a.lotDenom a.lot
+  | .debtV1 =>
+    match a.bidder with
+    | some w => send s.bank s.cust w a.payDenom a.pay
+    | none => some s.bank
+  | _ => none
+
+/-- the x/auction hook closes every auction of the app at once when the app is in emergency shutdown; the
+x/auctionsV2 hook does not look at the status for English auctions -/
+def emergency (s : State) (a : Auction) : Bool := a.kind.v1 && s.esm
+
 def settleStep (s : State) (id : Nat) : Option State :=
   match findAuc s.live id with
   | none => none
   | some a =>
-    if ¬ due s.now a then none else
+    if emergency s a then
+      match esmBank s a with
+      | none => none
+      | some b => some { s with bank := b, live := delAuc s.live id }
+    else if ¬ due s.now a then none else
     match a.bidder with
     | none => some { s with live := setAuc s.live (restartRec s.now a) }
     | some w =>
@@ -249,6 +287,7 @@ module account (not tracked here); the auction's own lot is taken from the colle
 def startStep (s : State) (a : Auction) : Option State :=
   if a.bidder.isSome then none
   else if (findAuc s.live a.id).isSome then none
+  else if emergency s a then none                         -- the x/auction activators do not start under shutdown
   else match a.kind with
     | .surplusV1 =>
       match send s.bank s.coll s.cust a.lotDenom a.lot with
@@ -266,6 +305,7 @@ def step (s : State) : Op → Option State
   | .dbid who app mapping id denom amt ed ea => dbidStep s who app mapping id denom amt ed ea
   | .tick now => if now < s.now then none else some { s with now := now }
   | .settle id => settleStep s id
+  | .esm on => some { s with esm := on }
 
 /-- a rejected message / a failed hook leaves the state as it was -/
 def apply (s : State) (op : Op) : State :=
